@@ -822,8 +822,9 @@ def run(tier, seed):
     suites.append(s2)
     suites.append(suite_finding(now))
     from .. import extra
-    return list(suites) + [extra.suite_replay_after_removal(tier, seed)]
-
+    from .. import extra as _extra
+    _more = [_extra.suite_second_instance_policies(tier, seed), _extra.suite_served_is_signed(tier, seed)]
+    return list(list(suites) + [extra.suite_replay_after_removal(tier, seed)]) + _more
 
 def replay(payload):
     v = payload["violation"]
